@@ -54,6 +54,15 @@ def run(ctx):
     n_pair = len(ops)
     totp_rounds = 6 if ctx.quick() else 40
     ops += ["totp2 %d" % rng.choice([2, 4, 8]) for _ in range(totp_rounds)]
+    # one signed hardware-token assertion presented by several sessions: at the same moment, and 40 ms apart
+    # while profile saves are slow (a remote database)
+    hw_rounds = 4 if ctx.quick() else 30
+    for _ in range(hw_rounds):
+        for pr in ("wa", "u2f"):
+            ops.append("hw2 %s %d same" % (pr, rng.choice([2, 4, 8, 16])))
+    ops += ["hw2 wa 2 slowsave", "hw2 u2f 2 slowsave", "hw2 wa 3 slowsave"]
+    # the unseal transition is a one-time step too: correct passphrases injected at the same moment
+    ops += ["unseal2 %d" % k for k in ([2, 4, 8] if ctx.quick() else [2, 2, 3, 4, 4, 8, 8, 16, 16, 32])]
     impl, log, rc = c.run_harness(ctx, "cmd/keymasterd", "C16", ops, timeout=1500)
     if rc != 0 or len(impl) != len(ops):
         ctx.broken.append("harness TestVerifC16 did not complete (exit %d, %d/%d lines)" % (rc, len(impl), len(ops)))
@@ -100,12 +109,37 @@ def run(ctx):
                 c.add_violation(ctx, key, "requests %s and %s on one user under schedule %s give %r; sequential orders give %r" % (
                     a, b, s, outs[s], sorted(seq)), {"op": ops[i * 6 + SCHEDULES.index(s)], "impl": outs[s], "sequential": sorted(seq)})
     for o, a in zip(totp_ops, totp_impl):
+        if not o.startswith("totp2"):
+            continue
         f = a.split()
         hist["totp-simultaneous:accepted=" + f[0]] += 1
         if not f[0].isdigit() or int(f[0]) > 1:
             c.add_violation(ctx, "double-spend:TOTPAuth|TOTPAuth",
                             "the same one-time code presented by %s simultaneous requests was honoured %s times" % (f[1] if len(f) > 1 else "?", f[0]),
                             {"op": o, "impl": a})
+    for o, a in zip(totp_ops, totp_impl):
+        if not o.startswith("hw2"):
+            continue
+        f = a.split()
+        if len(f) < 2 or not f[0].isdigit():
+            ctx.broken.append("op %r answered %r" % (o, a))
+            continue
+        hist["hw-assertion-%s:honoured=%s" % (o.split()[3], f[0])] += 1
+        if int(f[0]) > 1:
+            which = "webauthnAuthFinish" if o.split()[1] == "wa" else "u2fSignResponse"
+            c.add_violation(ctx, "double-spend:%s|%s" % (which, which),
+                            "one signed hardware-token assertion presented by %s sessions (%s) was honoured %s times" % (f[1], o.split()[3], f[0]),
+                            {"op": o, "impl": a})
+    for o, a in zip(totp_ops, totp_impl):
+        if not o.startswith("unseal2"):
+            continue
+        f = a.split()
+        hist["unseal-simultaneous:acknowledged=" + f[0]] += 1
+        # <#200> then the seal digest: status signer ed #published #caCerts #readySignals
+        if f[0] != "1" or f[2:] != ["1", "1", "2", "2", "1"]:
+            c.add_violation(ctx, "double-unseal", "%s correct passphrases injected at the same moment: %s acknowledged, state %s "
+                            "(served one after another: one 200, signer+Ed25519 signer, 2 published keys, 2 CA certificates, 1 ready signal)" % (
+                                o.split()[1], f[0], " ".join(f[1:])), {"op": o, "impl": a})
     if True:   # race detector over the map-touching handlers: supporting search, both tiers (≈10 s when cached)
         sl, slog, src = c.run_harness(ctx, "cmd/keymasterd", "C16Stress", ["stress 20"] if ctx.quick() else ["stress 40"] * 3,
                                       timeout=1500, race=True, tag="s")
